@@ -38,10 +38,12 @@ structure St where
   batch : Batch
   rowPool : List RoomNode.SRow           -- signed rows a candidate can be assembled from
   edgePool : List (Nat × RoomNode.PEdge)
+  dI : Defects                           -- switches in force for this case (`case id=… off=a,b` turns some off)
+  dR : RoomNode.Defects
 
 def St.init : St :=
   { inst := Inst.empty, defs := [], sysIds := [], batch := { edgeDels := [], nodeDels := [], nodes := [], edges := [] },
-    rowPool := [], edgePool := [] }
+    rowPool := [], edgePool := [], dI := Defects.asImplemented, dR := RoomNode.Defects.asImplemented }
 
 def bool? (toks : List String) (k : String) : Option Bool :=
   match nat? toks k with
@@ -150,7 +152,7 @@ def install (st : St) (room : Nat) : St × String :=
   match st.defs.find? (·.node.id = room) with
   | none => (st, "bad-op")
   | some d =>
-    match RoomNode.accept RoomNode.Defects.asImplemented (storeOf st.inst) d with
+    match RoomNode.accept st.dR (storeOf st.inst) d with
     | .err e => (st, "err:" ++ errName e)
     | .panic => (st, "panic")
     | .ok s' =>
@@ -225,7 +227,19 @@ def stepLine (st : St) (line : String) : St × String :=
   match toks with
   | "case" :: rest =>
     match nat? rest "id" with
-    | some i => (St.init, s!"case {i}")
+    | some i =>
+      -- `off=<switch,…>`: the case runs against /repo with the corresponding fix applied
+      let off := ((kv? rest "off").getD "").splitOn ","
+      let on (n : String) : Bool := !off.contains n
+      let dI : Defects :=
+        { edgeSourceUnchecked := on "edgeSource", edgeReplaceUnchecked := on "edgeReplace",
+          entityChangeUnchecked := on "entityChange", roomlessReplaceUnchecked := on "roomlessReplace",
+          delRoomUnchecked := on "delRoom", delEntityUnchecked := on "delEntity",
+          edgeDelSourceUnchecked := on "edgeDelSource", jsonAbsentUnchecked := on "jsonAbsent" }
+      let dR : RoomNode.Defects :=
+        { placingEdgeUnchecked := on "placingEdge", roomRowUnchecked := on "roomRow",
+          newGroupUserAdminUnchecked := on "newGroupUserAdmin" }
+      ({ St.init with dI, dR }, s!"case {i}")
     | none => (st, "bad-op")
   | "room" :: rest =>
     match nat? rest "id", int? rest "t", nat? rest "by" with
@@ -377,7 +391,7 @@ def stepLine (st : St) (line : String) : St × String :=
     | some r =>
       if tieOnSysRow st then (st, "bad-op")
       else
-        let res := syncDay Defects.asImplemented st.inst r st.batch
+        let res := syncDay st.dI st.inst r st.batch
         let cls := match res.2 with | .done _ _ => "ok" | _ => "err"
         ({ st with inst := res.1, batch := St.init.batch }, s!"rsync res={cls} {dump res.1}")
     | none => (st, "bad-op")
@@ -386,7 +400,7 @@ def stepLine (st : St) (line : String) : St × String :=
     | some r =>
       if tieOnSysRow st then (st, "bad-op")
       else
-        let res := syncDay Defects.asImplemented st.inst r st.batch
+        let res := syncDay st.dI st.inst r st.batch
         ({ st with inst := res.1, batch := St.init.batch }, s!"sync {fmtOutcome res.2} {dump res.1}")
     | none => (st, "bad-op")
   | _ => (st, "bad-op")
